@@ -21,7 +21,13 @@ open Mesa.Signals
     by any sequence of operations, **whether they returned or raised**: definitions of pure functions (which may raise
     on their own: `fail`) that read only earlier Computables, assignments (also restoring old values), reads, handler
     (un)subscriptions and deaths; `OpOK`: a handler that reads Computables subscribes to Observables, a handler that
-    subscribes to a Computable is passive -/
+    subscribes to a Computable is passive.
+    **Not covered** (do not over-read the theorems about `Reachable` states): a function with an assignment (`write`
+    node) is no admissible definition (`DefineOK.pure`) — after such a definition, cyclic or not, none of the theorems
+    below about reachable states applies any more (only the cycle theorems, which hold in any state); a Computable is
+    never defined twice (`DefineOK.fresh`); a handler subscribed to a Computable reads no Computables (`OpOK.observe`).
+    All read theorems are partial-correctness statements: their hypothesis is that the read returned (`step fuel … =
+    some …`); that some fuel makes a read of a reachable state return is not proved (see design.d/C17.md) -/
 inductive Reachable (decls : Nat → List Decl) (progs : Nat → List Nat) : St → Prop
   | init : Reachable decls progs (init decls progs)
   | step {s s' : St} {op : Op} {fuel : Nat} {r : R} (h : Reachable decls progs s) (ok : OpOK s op)
@@ -367,6 +373,36 @@ theorem C17_cycle_rejected_direct (f p : Nat) (k : Key) (cont : V → Tree) (s :
     exact evalTree_cycle f p k _ { s1 with proc := k :: s1.proc } (by simpa [hfields.1] using h)
       (by simpa [hfields.2] using hcur) (by simp)
 
+/-- **A cycle through a Computable is rejected** (G15 repaired).  Inside an evaluation on behalf of a Computed `p`,
+    in *any* state: the function reads the Computable `c` and is handed the value `c` held before (`c` is served from
+    its cache, or re-validated by its pre-check, or recomputed to the same value — so possibly no function reads any
+    Observable now); if the walk over what `c` remembers (`sourcesOf` = `Computed._sources`) finds the Observable `k`,
+    and the execution later — after any reads, reads of Computables, completed assignments — arrives at an assignment
+    to `k`, the evaluation raises `ValueError` at that assignment.  (When `c` hands out a *new* value, its function ran
+    inside this evaluation and its reads are on record by themselves: `C17_cycle_rejected` for that function.) -/
+theorem C17_cycle_through_computable_rejected (f p c : Nat) (cont : V → Tree) (s : St) (hcur : s.cur = some p)
+    (hdepth : 0 < s.depth) {x : Comp} (hx : s.comps c = some x) {s1 s' : St}
+    (hread : exec (f + 1) (.readC c) s = some (s1, .ok x.value.join))
+    {k : Key} (hdep : k ∈ sourcesOf s1 (c + 1) c) {v : V} {next : Tree}
+    (path : TSteps (exec (f + 1)) (cont x.value.join) s1 (.write k v next) s') :
+    evalTree (exec (f + 1)) (.readC c cont) s = some (s', .err .value) := by
+  rw [evalTree_tsteps (TSteps.head (TStep.readC c cont hread) path)]
+  have fr := exec_frame (f + 1) _ _ _ _ hread
+  have hrec : getC (exec f) c s = some (s1, .ok x.value.join) := hread
+  have i1 : Inside p k s1 :=
+    ⟨fr.cur.trans hcur, by rw [fr.depth]; exact hdepth, getC_records (exec_frame f) hcur hx hrec rfl k hdep⟩
+  exact write_inside (i1.of_frame (path.frame (exec_frame (f + 1)))) f v next
+
+/-- **The walk finds exactly the dependencies**: in every reachable state `sourcesOf` (what `Computed._sources`
+    returns for `c`) is the set of Observables `c` depends on — the ones it remembers, and the ones the Computables it
+    remembers depend on, to any depth (`c + 1` levels suffice: a function reads only Computables defined before it) -/
+theorem C17_sources_are_the_dependencies {decls : Nat → List Decl} (hd : DeclsOK decls) {s : St}
+    {progs : Nat → List Nat} (h : Reachable decls progs s) (c : Nat) (k : Key) :
+    k ∈ sourcesOf s (c + 1) c ↔ DependsOn s c k := by
+  refine ⟨dependsOn_of_sourcesOf (c + 1) c k, fun hdep => sourcesOf_of_dependsOn ?_ hdep (c + 1) (by omega)⟩
+  intro q y hy c' v hm
+  exact ((reachable_good hd h).inv.parents q y hy (.comp c') v hm).1 c' rfl
+
 /-- nothing is evaluating and nothing is on record as read -/
 def Idle (s : St) : Prop := s.cur = none ∧ s.depth = 0 ∧ s.proc = []
 
@@ -522,6 +558,41 @@ example : (runOps 40 (init cyDecls fun _ => [])
 example : (runOps 40 (init cyDecls fun _ => [])
     [.define 0 0 2 (.read (0, 0) fun x => .ret x), .define 1 0 3 (.write (0, 0) (i 5) (.ret (i 1))), .read 0]).map (·.2) =
     some [.ok (i 0), .ok (i 1), .ok (i 5)] := by decide +kernel
+
+/-- G15 (repaired): `c0 = x`, `c1 = (a = c0; x = 5; return a)`: `c0` is served from its cache when `c1` reads it, no
+    function reads `x` during the evaluation of `c1`, and `c1` depends on `x`.  The definition of `c1` and every read of
+    it are rejected; before the repair the history returned `[0, 0, 0, 5, 5]`: the third operation served 0 from a clean
+    `c1` while `c0` evaluated to 5 -/
+def g15c0 : Tree := .read (0, 0) fun x => .ret x
+def g15c1 : Tree := .readC 0 fun a => .write (0, 0) (i 5) (.ret a)
+
+example : (runOps 60 (init cyDecls fun _ => [])
+    [.define 0 0 2 g15c0, .define 1 0 3 g15c1, .read 1, .read 0, .read 1]).map (·.2) =
+    some [.ok (i 0), .err .value, .err .value, .ok (i 0), .err .value] := by decide +kernel
+
+/-- … and no false rejection: `c1 = (a = c0; p = 5; return a)` assigns an Observable `c0` does not depend on -/
+example : (runOps 60 (init cyDecls fun _ => [])
+    [.define 0 0 2 g15c0, .define 1 0 3 (.readC 0 fun a => .write (0, 1) (i 5) (.ret a)), .read 1, .read 0]).map (·.2) =
+    some [.ok (i 0), .ok (i 0), .ok (i 0), .ok (i 0)] := by decide +kernel
+
+/-- a state inside the evaluation of Computed 1 = `g15c1`, with `c0 = x` defined and clean -/
+def g15St : St :=
+  match step 30 (init cyDecls fun _ => []) (.define 0 0 2 g15c0) with
+  | some r => { r.1.setComp 1 { owner := 0, name := 3, tree := g15c1 } with cur := some 1, depth := 1 }
+  | none => init cyDecls fun _ => []
+
+/-- non-vacuity of `C17_cycle_through_computable_rejected`: in `g15St` the read of `c0` is served from the cache (the
+    value it held, its function does not run: counter still 1), the walk finds `x`, and the function is at the
+    assignment to `x` at once (`TSteps.refl`) -/
+example : g15St.cur = some 1 ∧ 0 < g15St.depth ∧ (g15St.comps 0).map (·.value.join) = some (i 0) ∧
+    (exec 30 (.readC 0) g15St).map (fun r => (r.2, decide ((0, 0) ∈ sourcesOf r.1 1 0), (r.1.comps 0).map (·.evals))) =
+      some (.ok (i 0), true, some 1) := by decide +kernel
+
+/-- non-vacuity of `DependsOn` through a chain: after `c0 = x`, `c1 = c0` the Computed `c1` depends on `x` -/
+example : (runOps 40 (init cyDecls fun _ => [])
+    [.define 0 0 2 g15c0, .define 1 0 3 (.readC 0 fun a => .ret a)]).map
+      (fun r => (sourcesOf r.1 2 1, sourcesOf r.1 1 0, sourcesOf r.1 1 1)) = some ([(0, 0)], [(0, 0)], []) := by
+  decide +kernel
 
 /-- a state inside the evaluation of Computed 0 -/
 def cySt : St :=
